@@ -2,7 +2,9 @@ package main
 
 import (
 	"fmt"
+	"os"
 	"sort"
+	"strings"
 
 	"verif/harness/lib"
 	. "verif/harness/refgen"
@@ -195,6 +197,44 @@ var interludes = []string{
 	"(def zz1 5) (defn zz1)",         //
 	"(def zz1 5) (begin (def zz1 6) (for [1 2] 3))",
 	"(def zz1 5) ^(a ~(fn))",
+	// a hard lex / parse error in the MIDDLE of the text, complete forms after it: the unread
+	// remainder must not survive into the next text (zzAfter must stay unbound, what follows must
+	// evaluate as in the twin that never saw the text)
+	"(def zz1 5) ) (def zzAfter 7)",        // stray closer
+	"(def zz1 5) ] (def zzAfter 7)",        //
+	"(def zz1 5) } (def zzAfter 7)",        //
+	"(def zz1 5) (+ 1 2] (def zzAfter 7)",  // mismatched closer
+	"(def zz1 5) [1 2) (def zzAfter 7)",    //
+	"(def zz1 5) 12abc (def zzAfter 7)",    // malformed atom
+	"(def zz1 5) 1.2.3 (def zzAfter 7)",    //
+	"(def zz1 5) \"a\\qb\" (def zzAfter 7)", // invalid escape in a string
+	"(def zz1 5) 'ab' (def zzAfter 7)",     // unexpected quote / malformed char literal
+	"(def zz1 5) #' (def zzAfter 7)",       //
+	"(def zz1 5) ~ ) (def zzAfter 7)",      // reader prefix before a closer
+	"(def zz1 5) \\ (def zzAfter 7)",       // stray backslash
+	// the same through the other routes into the interpreter's parser: read, source
+	"(read \"12abc (def zzAfter 7)\")",
+	"(read \") (def zzAfter 7)\")",
+	"(read \"(a b) ) (def zzAfter 7)\")",
+	"(source \"" + midTextFile + "\")",
+}
+
+// midTextFile is written by every process of the harness (same content): a text with a stray
+// closer in the middle, for the source route.
+const midTextFile = "/tmp/c05-src-midtext.zy"
+
+func writeMidTextFile() {
+	os.WriteFile(midTextFile, []byte("(def zz1 5) ) (def zzAfter 7)\n"), 0644)
+}
+
+// isRejectedText recognises the interlude texts (used by --replay to give them their role).
+func isRejectedText(src string) bool {
+	for _, t := range interludes {
+		if t == src {
+			return true
+		}
+	}
+	return strings.HasPrefix(src, "(def zz1 5)")
 }
 
 // battery is the fixed sequence of follow-up evaluations.
@@ -212,6 +252,7 @@ func battery(names []string) []Text {
 		add(CallN(n, Int(1), Int(2)))
 	}
 	add(Begin(Var("zz1")))
+	add(Begin(Var("zzAfter")))
 	add(CallN("+", Int(1), Int(2)))
 	add(Defn("nf9", []string{"a"}, "", CallN("+", Var("a"), Int(1))), CallN("nf9", Int(41)))
 	add(Def("acc9", Int(0)),
